@@ -3,6 +3,8 @@ CONSTANTS
   Msgs = {"m1","m2"}
   Closers = {c1, c2}
   AllowStop = TRUE
+  Watcher = nowatcher
+  AllowCtxCancel = FALSE
   AllowTimeout = TRUE
   LegacyConcurrentWaits = FALSE
   LegacyStartedFirst = FALSE
